@@ -98,7 +98,11 @@ impl ToTokens for DeriveInputShapeSet {
 
                             struct_check.check(struct_data)
                         }
-                        ::darling::export::syn::Data::Union(_) => unreachable!(),
+                        // A union is neither a struct nor an enum, so no shape word other than
+                        // `any` (handled above) admits it.
+                        ::darling::export::syn::Data::Union(_) => ::darling::export::Err(
+                            ::darling::Error::unsupported_shape("union")
+                        ),
                     }
                 }
             }
